@@ -263,6 +263,98 @@ def kani_counterexample(scratch, ob, res, hto, native_exe_cb):
     return info
 
 
+DEFAULT_ALPHABET = ["a", " ", "\n", ":", ";", "{", "}", "(", ")", "/", "*", "#", ",", "\"", "\\", "$", "@", "-", "1"]
+PREFIXES = ["", "a{b:", "$a: 1 ", "a\n  b: c ", "a\n  ", "@media ", "a{"]
+
+
+def witness_search(scratch, fn_source_file, fn_text, budget_s=240):
+    """Verus gives no model. For a failed termination / panic-freedom obligation of a parser function, look for a
+    concrete witness through the public entry point: short inputs (a few context prefixes followed by every string
+    of length <= 3 over the characters that occur as literals in the function) are compiled by the natively built
+    CLI of the scratch copy, each in its own process with a 3 s watchdog. A hang or a panic is a replayed witness.
+    This search only documents a violation the verifier has already reported; it never decides anything."""
+    import itertools
+    import subprocess
+    from concurrent.futures import ThreadPoolExecutor
+
+    env = {"CARGO_TARGET_DIR": os.path.join(scratch, "target-native-cli")}
+    rc, out, secs, to = run(["cargo", "build", "--offline", "-p", "grass"], cwd=scratch, env=env, timeout=900)
+    exe = os.path.join(scratch, "target-native-cli", "debug", "grass")
+    if rc != 0 or not os.path.exists(exe):
+        return {"reproduced": False, "why": "native CLI build failed: " + out[-300:]}
+    lits = re.findall(r"'(\\.|[^'\\])'", fn_text)
+    alpha = []
+    for c in lits + DEFAULT_ALPHABET:
+        c = {"\\n": "\n", "\\t": "\t", "\\\\": "\\", "\\'": "'", "\\r": "\r"}.get(c, c)
+        if len(c) == 1 and c not in alpha:
+            alpha.append(c)
+    alpha = alpha[:16]
+    if fn_source_file.endswith("sass.rs"):
+        exts = ["sass"]
+    elif fn_source_file.endswith("css.rs"):
+        exts = ["css"]
+    else:
+        exts = ["scss", "sass", "css"]
+    wd = os.path.join(scratch, "witness")
+    os.makedirs(wd, exist_ok=True)
+    t0 = time.time()
+    found = []
+
+    def try_one(args):
+        i, ext, text = args
+        if found or time.time() - t0 > budget_s:
+            return None
+        path = os.path.join(wd, "w%d.%s" % (i % 64, ext))
+        path = os.path.join(wd, "w%d_%d.%s" % (os.getpid(), i, ext))
+        with open(path, "w") as f:
+            f.write(text)
+        try:
+            p = subprocess.run([exe, path], capture_output=True, text=True, timeout=3)
+            os.unlink(path)
+            if p.returncode == 101 or "panicked at" in p.stderr:
+                m = re.search(r"panicked at ([^\n]*)\n([^\n]*)", p.stderr)
+                return (ext, text, "panic: " + (m.group(1) + " " + m.group(2) if m else p.stderr[:200]))
+            if p.returncode < 0:
+                return (ext, text, "killed by signal %d" % -p.returncode)
+        except subprocess.TimeoutExpired:
+            os.unlink(path)
+            return (ext, text, "did not return within 3 s (hang)")
+        return None
+
+    def gen():
+        i = 0
+        for n in (1, 2, 3):
+            for tup in itertools.product(alpha, repeat=n):
+                body = "".join(tup)
+                for pre in PREFIXES:
+                    for ext in exts:
+                        i += 1
+                        yield (i, ext, pre + body)
+
+    tried = 0
+    with ThreadPoolExecutor(max_workers=16) as ex:
+        batch = []
+        for item in gen():
+            batch.append(item)
+            if len(batch) == 256:
+                for r in ex.map(try_one, batch):
+                    tried += 1
+                    if r:
+                        found.append(r)
+                batch = []
+                if found or time.time() - t0 > budget_s:
+                    break
+        if batch and not found:
+            for r in ex.map(try_one, batch):
+                tried += 1
+                if r:
+                    found.append(r)
+    if found:
+        ext, text, what = found[0]
+        return {"reproduced": True, "witness_input": text, "witness_syntax": ext, "native_result": what, "inputs": ["%s input %r" % (ext, text)], "inputs_tried": tried, "alphabet": alpha}
+    return {"reproduced": False, "why": "no hang or panic among %d short inputs (alphabet %r, %d s)" % (tried, alpha, int(time.time() - t0)), "inputs_tried": tried}
+
+
 def native_check(scratch, ob, native_exe_cb):
     base = {"engine": "native (rustc, --cfg verif_replay)", "kind": "native-check", "fns": ob.get("fns"), "desc": ob.get("desc"), "harness": ob["harness"], "nontrivial": True}
     exe, err = native_exe_cb()
